@@ -458,16 +458,16 @@ theorem charEsc_sim (hn : Bool) (x : Nat) (r : List Nat) (h : AllChar r) :
 
 theorem isHex_plain {c : Nat} (h : ESG.isHex c = true) : Plain c := by
   simp only [ESG.isHex, ESG.isDigit, Bool.or_eq_true, Bool.and_eq_true, decide_eq_true_eq] at h
-  refine ⟨?_, ?_, ?_⟩ <;> omega
+  refine ⟨?_, ?_, ?_, ?_, ?_⟩ <;> omega
 
-theorem hex4_neutral (e : Bool) {s r : List Nat} {v : Nat} (h : hex4 s = some (v, r)) :
-    ∃ t, s = t ++ r ∧ Neutral e t := by
+theorem hex4_neutral (e k m : Bool) {s r : List Nat} {v : Nat} (h : hex4 s = some (v, r)) :
+    ∃ t, s = t ++ r ∧ NeutralM e k m t := by
   rcases s with _ | ⟨a, _ | ⟨b, _ | ⟨c, _ | ⟨d, r0⟩⟩⟩⟩ <;> simp only [hex4] at h <;> try cases h
   split at h
   · rename_i hh
     simp only [Bool.and_eq_true] at hh
     cases h
-    refine ⟨[a, b, c, d], rfl, neutral_plains e ?_⟩
+    refine ⟨[a, b, c, d], rfl, neutralM_plains e k m ?_⟩
     intro x hx
     simp only [List.mem_cons, List.not_mem_nil, or_false] at hx
     rcases hx with rfl | rfl | rfl | rfl
@@ -477,14 +477,14 @@ theorem hex4_neutral (e : Bool) {s r : List Nat} {v : Nat} (h : hex4 s = some (v
     · exact isHex_plain hh.2
   · cases h
 
-theorem uEscapeU_neutral (e : Bool) {s r : List Nat} {v : Nat} (h : uEscapeU s = some (v, r)) :
-    ∃ t, s = t ++ r ∧ Neutral e t := by
+theorem uEscapeU_neutral (e k m : Bool) {s r : List Nat} {v : Nat} (h : uEscapeU s = some (v, r)) :
+    ∃ t, s = t ++ r ∧ NeutralM e k m t := by
   unfold uEscapeU at h
   split at h
   · rename_i r0
     rw [takeHex_eq] at h
     split at h
-    · rename_i v' k r' heq
+    · rename_i v' kk r' heq
       simp only [Prod.mk.injEq] at heq
       obtain ⟨-, -, hdw⟩ := heq
       split at h
@@ -493,33 +493,33 @@ theorem uEscapeU_neutral (e : Bool) {s r : List Nat} {v : Nat} (h : uEscapeU s =
         · have := tw_dw_split (p := ESG.isHex) r0
           rw [hdw] at this
           simp; exact this
-        · apply neutral_plains
+        · apply neutralM_plains
           intro x hx
           simp only [List.mem_cons, List.mem_append, List.not_mem_nil, or_false] at hx
           rcases hx with rfl | hx | rfl
-          · refine ⟨?_, ?_, ?_⟩ <;> decide
+          · refine ⟨?_, ?_, ?_, ?_, ?_⟩ <;> decide
           · have := all_takeWhile (p := ESG.isHex) r0
             rw [List.all_eq_true] at this
             exact isHex_plain (this x hx)
-          · refine ⟨?_, ?_, ?_⟩ <;> decide
+          · refine ⟨?_, ?_, ?_, ?_, ?_⟩ <;> decide
       · cases h
     · cases h
   · split at h
     · cases h
     · rename_i a r1 h4
-      obtain ⟨t1, e1, n1⟩ := hex4_neutral e h4
+      obtain ⟨t1, e1, n1⟩ := hex4_neutral e k m h4
       split at h
       · split at h
         · rename_i r2
           split at h
           · rename_i b r3 h4'
-            obtain ⟨t2, e2, n2⟩ := hex4_neutral e h4'
+            obtain ⟨t2, e2, n2⟩ := hex4_neutral e k m h4'
             split at h
             · simp only [Option.some.injEq, Prod.mk.injEq] at h
               obtain ⟨-, rfl⟩ := h
               refine ⟨t1 ++ ([0x5C, 0x75] ++ t2), ?_, ?_⟩
               · rw [e1, e2]; simp only [List.append_assoc, List.cons_append, List.nil_append]
-              exact neutral_append n1 (neutral_append (neutral_esc e 0x75) n2)
+              exact neutralM_append n1 (neutralM_append (neutralM_esc e k m 0x75) n2)
             · cases h; exact ⟨t1, e1, n1⟩
           · cases h; exact ⟨t1, e1, n1⟩
         · cases h; exact ⟨t1, e1, n1⟩
@@ -528,28 +528,28 @@ theorem uEscapeU_neutral (e : Bool) {s r : List Nat} {v : Nat} (h : uEscapeU s =
 
 theorem isAsciiLetter_plain {c : Nat} (h : ESG.isAsciiLetter c = true) : Plain c := by
   simp only [ESG.isAsciiLetter, Bool.or_eq_true, Bool.and_eq_true, decide_eq_true_eq] at h
-  refine ⟨?_, ?_, ?_⟩ <;> omega
+  refine ⟨?_, ?_, ?_, ?_, ?_⟩ <;> omega
 
-theorem charEscapeU_neutral (e : Bool) {x : Nat} {r r' : List Nat} {v : Nat}
-    (h : charEscapeU x r = some (v, r')) : ∃ t, r = t ++ r' ∧ Neutral e t := by
+theorem charEscapeU_neutral (e k m : Bool) {x : Nat} {r r' : List Nat} {v : Nat}
+    (h : charEscapeU x r = some (v, r')) : ∃ t, r = t ++ r' ∧ NeutralM e k m t := by
   unfold charEscapeU at h
   split at h
-  · cases h; exact ⟨[], rfl, neutral_nil e⟩
+  · cases h; exact ⟨[], rfl, neutralM_nil e k m⟩
   · split at h
     · split at h
       · rename_i l r1
         split at h
         · rename_i hl
           cases h
-          exact ⟨[l], rfl, neutral_plain e (isAsciiLetter_plain hl)⟩
+          exact ⟨[l], rfl, neutralM_plain e k m (isAsciiLetter_plain hl)⟩
         · cases h
       · cases h
     · split at h
       · split at h
         · split at h
           · cases h
-          · cases h; exact ⟨[], rfl, neutral_nil e⟩
-        · cases h; exact ⟨[], rfl, neutral_nil e⟩
+          · cases h; exact ⟨[], rfl, neutralM_nil e k m⟩
+        · cases h; exact ⟨[], rfl, neutralM_nil e k m⟩
       · split at h
         · split at h
           · rename_i a b r1
@@ -557,7 +557,7 @@ theorem charEscapeU_neutral (e : Bool) {x : Nat} {r r' : List Nat} {v : Nat}
             · rename_i hh
               simp only [Bool.and_eq_true] at hh
               cases h
-              refine ⟨[a, b], rfl, neutral_plains e ?_⟩
+              refine ⟨[a, b], rfl, neutralM_plains e k m ?_⟩
               intro y hy
               simp only [List.mem_cons, List.not_mem_nil, or_false] at hy
               rcases hy with rfl | rfl
@@ -566,27 +566,28 @@ theorem charEscapeU_neutral (e : Bool) {x : Nat} {r r' : List Nat} {v : Nat}
             · cases h
           · cases h
         · split at h
-          · exact uEscapeU_neutral e h
+          · exact uEscapeU_neutral e k m h
           · split at h
-            · cases h; exact ⟨[], rfl, neutral_nil e⟩
+            · cases h; exact ⟨[], rfl, neutralM_nil e k m⟩
             · cases h
 
 /-- What an `AtomEscape` of the fragment consumes. -/
-theorem atomEscape_neutral (e : Bool) (c : Cfg) (hcu : c.u = true) {x : Nat} {r r' : List Nat}
-    {est est' : ESG.St} (hx : escOk x = true) (h : atomEscape c (x :: r) est = .ok (r', est')) :
-    est' = est ∧ ∃ t, r = t ++ r' ∧ Neutral e t := by
+theorem atomEscape_neutral (e k m : Bool) (c : Cfg) (hcu : c.u = true) {x : Nat} {r r' : List Nat}
+    {est est' : ESG.St} (hx : escOk x = true) (hd : ¬ (0x31 ≤ x ∧ x ≤ 0x39))
+    (h : atomEscape c (x :: r) est = .ok (r', est')) :
+    est' = est ∧ ∃ t, r = t ++ r' ∧ NeutralM e k m t := by
   simp only [escOk, Bool.not_eq_true', Bool.or_eq_false_iff, beq_eq_false_iff_ne,
     Bool.and_eq_false_iff, decide_eq_false_iff_not] at hx
-  obtain ⟨⟨⟨hp, hP⟩, hk⟩, hd⟩ := hx
+  obtain ⟨⟨hp, hP⟩, hk⟩ := hx
   unfold atomEscape at h
   simp only [hcu, if_true] at h
   split at h
-  · cases h; exact ⟨rfl, [], rfl, neutral_nil e⟩
+  · cases h; exact ⟨rfl, [], rfl, neutralM_nil e k m⟩
   · split at h
     · split at h
       · rename_i v r1 hce
         cases h
-        exact ⟨rfl, charEscapeU_neutral e hce⟩
+        exact ⟨rfl, charEscapeU_neutral e k m hce⟩
       · cases h
     · split at h
       · rename_i h0 hdg
@@ -600,7 +601,7 @@ theorem atomEscape_neutral (e : Bool) (c : Cfg) (hcu : c.u = true) {x : Nat} {r 
         split at h
         · rename_i v r1 hce
           cases h
-          exact ⟨rfl, charEscapeU_neutral e hce⟩
+          exact ⟨rfl, charEscapeU_neutral e k m hce⟩
         · cases h
 
 /-! ## `AtomEscape` -/
@@ -617,14 +618,14 @@ theorem charNode_ok (fl : Flags) (c : Nat) : ∃ n, charNode fl c = .ok n := by
     rcases cls with _ | ⟨a, _ | ⟨b, _ | ⟨c', _ | ⟨d, _ | ⟨e, t⟩⟩⟩⟩⟩ <;> simp_all [Ens, panicAt]
 
 theorem atomEscape_eq_char (c : Cfg) (hcu : c.u = true) {x : Nat} (r : List Nat) (est : ESG.St)
-    (hx : escOk x = true) (hcl : ESG.isClassEscLetter x = false) :
+    (hx : escOk x = true) (hd : ¬ (0x31 ≤ x ∧ x ≤ 0x39)) (hcl : ESG.isClassEscLetter x = false) :
     atomEscape c (x :: r) est =
       match charEscapeU x r with
       | some (_, r') => .ok (r', est)
       | none => .bad := by
   simp only [escOk, Bool.not_eq_true', Bool.or_eq_false_iff, beq_eq_false_iff_ne,
     Bool.and_eq_false_iff, decide_eq_false_iff_not] at hx
-  obtain ⟨⟨⟨hp, hP⟩, hk⟩, hd⟩ := hx
+  obtain ⟨⟨hp, hP⟩, hk⟩ := hx
   unfold atomEscape
   simp only [hcl, hcu, Bool.false_eq_true, if_false, if_true]
   by_cases h0 : x = 0x30
@@ -639,8 +640,8 @@ theorem atomEscape_eq_char (c : Cfg) (hcu : c.u = true) {x : Nat} (r : List Nat)
 
 /-- `AtomEscape` (UnicodeMode, outside the excluded `\p \P \k \1…\9`): crate against grammar. -/
 theorem atomEscape_sim (c : Cfg) (hcu : c.u = true) (st1 : PState) (hu : st1.flags.unicode = true)
-    {x : Nat} {r : List Nat} (hin : st1.input = x :: r) (hx : escOk x = true) (hch : AllChar r)
-    (est : ESG.St) :
+    {x : Nat} {r : List Nat} (hin : st1.input = x :: r) (hx : escOk x = true)
+    (hd : ¬ (0x31 ≤ x ∧ x ≤ 0x39)) (hch : AllChar r) (est : ESG.St) :
     match atomEscape c (x :: r) est with
     | .ok (r', _) => ∃ nd, consumeAtomEscape st1 = .ok (nd, { st1 with input := r' })
     | .bad => IsSyn (consumeAtomEscape st1)
@@ -654,12 +655,12 @@ theorem atomEscape_sim (c : Cfg) (hcu : c.u = true) (st1 : PState) (hu : st1.fla
     rw [hin]
     rcases hcl with ((((h | h) | h) | h) | h) | h <;> subst h <;> exact ⟨_, rfl⟩
   · have hcl' : ESG.isClassEscLetter x = false := by simpa using hcl
-    rw [atomEscape_eq_char c hcu r est hx hcl']
+    rw [atomEscape_eq_char c hcu r est hx hd hcl']
     have hsim := charEsc_sim (!st1.named.isEmpty) x r hch
     have hx' := hx
     simp only [escOk, Bool.not_eq_true', Bool.or_eq_false_iff, beq_eq_false_iff_ne,
       Bool.and_eq_false_iff, decide_eq_false_iff_not] at hx'
-    obtain ⟨⟨⟨hp, hP⟩, hk⟩, hd⟩ := hx'
+    obtain ⟨⟨hp, hP⟩, hk⟩ := hx'
     simp only [ESG.isClassEscLetter, Bool.or_eq_true, beq_iff_eq, not_or] at hcl
     obtain ⟨⟨⟨⟨⟨c1, c2⟩, c3⟩, c4⟩, c5⟩, c6⟩ := hcl
     have hce : consumeAtomEscape st1 =
@@ -695,5 +696,115 @@ theorem atomEscape_sim (c : Cfg) (hcu : c.u = true) (st1 : PState) (hu : st1.fla
       obtain ⟨nd, hnd⟩ := charNode_ok st1.flags v
       simp only [hnd]
       exact ⟨nd, rfl⟩
+
+/-! ## Decimal escapes (back-references) -/
+
+theorem isDigit_plain {c : Nat} (h : ESG.isDigit c = true) : Plain c := by
+  have := dig_range h
+  refine ⟨?_, ?_, ?_, ?_, ?_⟩ <;> omega
+
+/-- `DecimalEscape`, grammar side: the number is recorded in `maxDec`. -/
+theorem atomEscape_dec (c : Cfg) (hcu : c.u = true) {x : Nat} (r : List Nat) (hd : 0x31 ≤ x ∧ x ≤ 0x39)
+    (est : ESG.St) :
+    atomEscape c (x :: r) est = .ok ((takeDigits (x :: r) 0 0).2.2,
+      { est with maxDec := max est.maxDec (takeDigits (x :: r) 0 0).1 }) := by
+  have hcl : ESG.isClassEscLetter x = false := by
+    simp only [ESG.isClassEscLetter, Bool.or_eq_false_iff, beq_eq_false_iff_ne]
+    omega
+  have h0 : (x == 0x30) = false := by simp; omega
+  have hdg : ESG.isDigit x = true := by simp [ESG.isDigit]; omega
+  unfold atomEscape
+  simp only [hcl, hcu, h0, hdg, Bool.false_eq_true, if_false, if_true]
+
+/-- `DecimalEscape`, crate side: accepted iff the (saturated) number is at most `group_count_max`. -/
+theorem consumeAtomEscape_dec (st1 : PState) (hu : st1.flags.unicode = true) {x : Nat} {r : List Nat}
+    (hin : st1.input = x :: r) (hd : 0x31 ≤ x ∧ x ≤ 0x39) :
+    consumeAtomEscape st1 =
+      if min (takeDigits (x :: r) 0 0).1 USIZE_MAX ≤ st1.groupCountMax then
+        .ok (.backRef (min (takeDigits (x :: r) 0 0).1 USIZE_MAX) st1.flags.icase,
+          { st1 with input := (takeDigits (x :: r) 0 0).2.2 })
+      else synErr "Invalid character escape" := by
+  have d1 : (x == 0x64 || x == 0x44) = false := by simp; omega
+  have d2 : (x == 0x73 || x == 0x53) = false := by simp; omega
+  have d3 : (x == 0x77 || x == 0x57) = false := by simp; omega
+  have d4 : (x == 0x70 || x == 0x50) = false := by simp; omega
+  have d5 : (decide (0x31 ≤ x) && decide (x ≤ 0x39)) = true := by simp; omega
+  have hk : (takeDigits (x :: r) 0 0).2.1 > 0 := by
+    rw [takeDigits_eq]
+    have hdg : ESG.isDigit x = true := by simp [ESG.isDigit]; omega
+    simp [List.takeWhile_cons_of_pos hdg]
+  unfold consumeAtomEscape
+  rw [hin]
+  simp only [d1, d2, d3, d4, d5, hu, Bool.false_and, Bool.false_eq_true, if_false, Bool.and_self,
+    if_true, decimalLiteral_eq, hk]
+
+theorem dec_neutral (e k m : Bool) {x : Nat} (r : List Nat) (hd : 0x31 ≤ x ∧ x ≤ 0x39) :
+    ∃ p, 0x5C :: x :: r = p ++ (takeDigits (x :: r) 0 0).2.2 ∧ NeutralM e k m p := by
+  have hdg : ESG.isDigit x = true := by simp [ESG.isDigit]; omega
+  obtain ⟨p, hp, hall⟩ := takeDigits_split r
+  have e1 : (takeDigits (x :: r) 0 0).2.2 = (takeDigits r 0 0).2.2 := by
+    rw [takeDigits_eq, takeDigits_eq]
+    simp [List.dropWhile_cons_of_pos hdg]
+  rw [e1]
+  refine ⟨0x5C :: x :: p, by rw [List.cons_append, List.cons_append, ← hp], ?_⟩
+  exact neutralM_append (p := [0x5C, x]) (neutralM_esc e k m x)
+    (neutralM_plains e k m (fun c hc => isDigit_plain (hall c hc)))
+
+
+/-! ## The largest decimal escape only grows (grammar side only) -/
+
+theorem atomEscape_mono (c : Cfg) (s : List Nat) (st : ESG.St) (r : List Nat) (st' : ESG.St)
+    (h : atomEscape c s st = .ok (r, st')) : st.maxDec ≤ st'.maxDec := by
+  unfold atomEscape namedRef at h
+  repeat' split at h
+  all_goals grind
+
+/-- The largest back-reference number seen only grows. -/
+def Mono (c : Cfg) (n : Nat) : Prop :=
+  (∀ s st r st', disj c n s st = .ok (r, st') → st.maxDec ≤ st'.maxDec) ∧
+  (∀ s st r st', alt c n s st = .ok (r, st') → st.maxDec ≤ st'.maxDec) ∧
+  (∀ s st r st', body c n s st = .ok (r, st') → st.maxDec ≤ st'.maxDec) ∧
+  (∀ s st r st', term c n s st = .ok (r, st') → st.maxDec ≤ st'.maxDec) ∧
+  (∀ s st r st', quantified c n s st = .ok (r, st') → st.maxDec ≤ st'.maxDec) ∧
+  (∀ s st r st', atom c n s st = .ok (r, st') → st.maxDec ≤ st'.maxDec)
+
+theorem mono (c : Cfg) (n : Nat) : Mono c n := by
+  induction n with
+  | zero =>
+    refine ⟨?_, ?_, ?_, ?_, ?_, ?_⟩ <;> intro s st r st' h
+    · simp [disj] at h
+    · simp [alt] at h
+    · simp [body] at h
+    · simp [term] at h
+    · simp [quantified] at h
+    · simp [atom] at h
+  | succ n ih =>
+    obtain ⟨ihD, ihA, ihB, ihT, ihQ, ihM⟩ := ih
+    refine ⟨?_, ?_, ?_, ?_, ?_, ?_⟩
+    · intro s st r st' h
+      unfold disj at h
+      repeat' split at h
+      all_goals grind
+    · intro s st r st' h
+      unfold alt at h
+      repeat' split at h
+      all_goals grind
+    · intro s st r st' h
+      unfold body at h
+      repeat' split at h
+      all_goals grind
+    · intro s st r st' h
+      unfold term at h
+      repeat' split at h
+      all_goals grind
+    · intro s st r st' h
+      unfold quantified at h
+      repeat' split at h
+      all_goals grind
+    · intro s st r st' h
+      unfold atom at h
+      repeat' split at h
+      all_goals grind [→ atomEscape_mono, addName]
+
 
 end Regress.C08Frag
